@@ -15,7 +15,7 @@ from hv.ref import raw
 
 def gen_case(rnd, tier: str, i: Any, **over: Any) -> Dict[str, Any]:
     n_ranks = rnd.choice([1, 1, 1, 2])
-    first_step = rnd.randint(3, 500)
+    first_step = gen_sim.pick_first_step(rnd, 3)
     n_steps = rnd.choice([0, 1, 1, 2, 2, 3, 3, 5])    # every rank carries the same step set
     files, truths = {}, {}
     for r in range(n_ranks):
